@@ -8,19 +8,6 @@ namespace Pfst.Reconcile
 
 /-! ### the region an operation rewrites -/
 
-/-- `touchesAt P act p`: the operation `act` at path `P` rewrites the subtree at `p`, an ancestor of it, or something inside
-it.  The region of a `put` / `setPrim` is the subtree at `P`; of `putSlice a b` the elements `a ≤ j < b` of the list at `P`;
-of `delTail a` the elements `j ≥ a`. -/
-def touchesAt : Path → Act → Path → Bool
-  | _, _, [] => true
-  | [], .put _ _, _ :: _ => true
-  | [], .setPrim _, _ :: _ => true
-  | [], .putSlice a b _ _ _, i :: _ => decide (a ≤ i) && decide (i < b)
-  | [], .delTail a, i :: _ => decide (a ≤ i)
-  | j :: P, act, i :: p => j == i && touchesAt P act p
-
-def touches (o : Op) (p : Path) : Bool := touchesAt o.path o.act p
-
 theorem touches_pre (o : Op) (j i : Nat) (p : Path) : touches (o.pre j) (i :: p) = (j == i && touches o p) := by
   simp [touches, Op.pre, touchesAt]
 
@@ -314,24 +301,6 @@ theorem shapeOK_get : ∀ (ms cs : List T) (j : Nat) (c : T), shapeOK ms cs = tr
     | succ j => simp at hy; simpa using shapeOK_get ms cs j c h.2 hy
 
 /-! ### untouched subtrees -/
-
-/-- `keptN mark p np rel n`: walking the path `p` down from `n` (field index, then element index for list fields) every
-node on the way is an in-tree node in place, no retry-at-parent fallback fires at it (`recurse_children` of it does not
-raise), and the subtree reached is unchanged (`stillN`). -/
-def keptN (mark : T) : Path → NP → Path → T → Bool
-  | [], np, rel, n => stillN mark np rel n
-  | fi :: p, np, rel, .node (.tree l) _ cs =>
-    inPlace np rel l && !(recFields mark (.fst 0 (qOf l)) 0 (eraseL (markAt mark (qOf l)).kids) cs).fail &&
-    (match cs[fi]? with
-     | some (.many _ _ items) =>
-       (match p with
-        | i :: p' => (match items[i]? with
-                      | some x => keptN mark p' (.fst 0 (qOf l)) [fi, i] x
-                      | none => false)
-        | [] => false)
-     | some (.node o k cs') => keptN mark p (.fst 0 (qOf l)) [fi] (.node o k cs')
-     | _ => false)
-  | _ :: _, _, _, _ => false
 
 theorem keptN_inPlace (mark : T) (p : Path) (np : NP) (rel : Path) (n : T) (h : keptN mark p np rel n = true) :
     ∃ l k cs, n = .node (.tree l) k cs ∧ inPlace np rel l = true := by
